@@ -92,14 +92,16 @@ def run(ids):
             if rc != 0 or "<<<<<<<" in sh("git -C /repo diff")[1]:
                 rc = 1
         if rc != 0:
-            sh("git -C /repo checkout -- . ; git -C /repo reset -q")
+            sh("git -C /repo reset -q; git -C /repo checkout -- .")
             summary[sid] = "PATCH-DOES-NOT-APPLY"
             print(sid, summary[sid], out[-300:])
             continue
         det = {}
         try:
-            for p in props:
-                rcc, o = sh(f"python3 mdstatic/check.py {p} --tier quick", cwd=VERIF, env={"MDSTATIC_NO_EVIDENCE": "1"})
+            from concurrent.futures import ThreadPoolExecutor
+            with ThreadPoolExecutor(max_workers=14) as ex:
+                outs = list(ex.map(lambda p: (p,) + sh(f"python3 mdstatic/check.py {p} --tier quick", cwd=VERIF), props))
+            for p, rcc, o in outs:
                 if rcc != 0:
                     lines = [ln for ln in o.splitlines() if ln.startswith(("VIOLATION", "  rule=", "ANALYSIS-ERROR"))]
                     det[p] = {"exit": rcc, "lines": lines[:6]}
@@ -117,8 +119,9 @@ def run(ids):
                         ("".join(f" ERR:{p}" for p, v in det.items() if v["exit"] == 2)))
         print(sid, summary[sid])
     # evidence files were rewritten by the runs against patched trees: regenerate from the clean tree
-    for p in props:
-        sh(f"python3 mdstatic/check.py {p} --tier quick", cwd=VERIF)
+    from concurrent.futures import ThreadPoolExecutor
+    with ThreadPoolExecutor(max_workers=14) as ex:
+        list(ex.map(lambda p: sh(f"python3 mdstatic/check.py {p} --tier quick", cwd=VERIF), props))
     return summary
 
 
